@@ -36,7 +36,10 @@ pub fn cells(prop: &str, t: bool, dir: &str) -> Vec<CellDef> {
 fn main() {
     let cfg = Cfg::from_args();
     let mut extra = Extra::default();
-    let cells = if cfg.prop == "C19" { vpchecks::rng::c19(cfg.thorough(), &mut extra) } else { cells(&cfg.prop, cfg.thorough(), &cfg.verif_dir) };
+    let stubs: std::collections::BTreeSet<String> = cfg.extra.get("stubs").map(|s| s.split(',').map(|x| x.to_string()).collect()).unwrap_or_default();
+    let cells = if cfg.prop == "C16" {
+        vpchecks::total::c16(cfg.thorough(), &stubs)
+    } else if cfg.prop == "C19" { vpchecks::rng::c19(cfg.thorough(), &mut extra) } else { cells(&cfg.prop, cfg.thorough(), &cfg.verif_dir) };
     if cells.is_empty() {
         eprintln!("vp_fixed: no cells for property {}", cfg.prop);
         std::process::exit(2);
